@@ -1,6 +1,7 @@
 package main
 
 import (
+	"go/constant"
 	"bytes"
 	"fmt"
 	"go/ast"
@@ -24,8 +25,9 @@ func init() {
 				"C11.first (InsertEvent's success returns and the append to UndeterminedEvents are reached only after Store.SetEvent returned nil; BadgerStore.SetEvent returns the DB write's error when not in maintenance mode, and writes the DB only after the cache accepted the event), " +
 				"C11.replay (Bootstrap sets maintenance mode before the first insert and restores it by defer; feeds events of dbTopologicalEvents(index*batch, batch) in slice order to InsertEventAndRunConsensus — the live insert path; dbTopologicalEvents reads keys built by the writer's key function, ascending), " +
 				"C11.topo (the replay source has no holes: a topological index is consumed only by an event that was stored — Bootstrap reads consecutive keys and stops at the first missing one), C11.head (every transition to Babbling is preceded in the same function by core.setHeadAndSeq or a successful core.fastForward), C11.sibling (thorough: badger_store_mobile.go equals badger_store.go modulo the badger import path). " +
+				"C11.open (the database is opened with Truncate enabled: a kill in the middle of a value-log write leaves a partial last entry, which badger refuses to open unless it may truncate it — without the option the node cannot restart at all). " +
 				"NOT decided: equality of re-delivered blocks (needs determinism behaviourally), durability with SyncWrites=false under power loss, arbitrary kill instants inside badger."},
-		Rules:    []ruleFunc{c11atomic, c11first, c11replay, c11head, func(p *Prog, r *Report) { topoRule(p, r, "C11.topo") }},
+		Rules:    []ruleFunc{c11atomic, c11first, c11replay, c11head, func(p *Prog, r *Report) { topoRule(p, r, "C11.topo") }, c11open},
 		Thorough: []ruleFunc{siblingRule("C11.sibling")},
 	})
 }
@@ -408,4 +410,49 @@ func stripPos(f *ast.File) *ast.File {
 	f.Doc = nil
 	f.Comments = nil
 	return f
+}
+
+// C11.open: a process killed while badger appends to its value log leaves a torn last entry.
+// badger.Open fails on such a file ("Value log truncate required") unless Options.Truncate is set:
+// every badger.Open in the store is given options that went through WithTruncate(true).
+func c11open(p *Prog, r *Report) {
+	const rule = "C11.open"
+	r.Rule(rule, 1, "badger is opened with Truncate=true (a torn value-log tail after a kill is dropped instead of refusing to start)")
+	n := 0
+	for _, fn := range p.Mod {
+		if !strings.HasSuffix(fnPkgPath(fn), "/"+HG) {
+			continue
+		}
+		for _, b := range fn.Blocks {
+			for _, in := range b.Instrs {
+				c, ok := in.(*ssa.Call)
+				if !ok {
+					continue
+				}
+				f := calleeFunc(c.Common())
+				if f == nil || f.Pkg() == nil || !strings.Contains(f.Pkg().Path(), "dgraph-io/badger") || f.Name() != "Open" || len(c.Call.Args) != 1 {
+					continue
+				}
+				n++
+				okT := dependsOn(c.Call.Args[0], func(x ssa.Value) bool {
+					wc, isCall := x.(*ssa.Call)
+					if !isCall {
+						return false
+					}
+					wf := calleeFunc(wc.Common())
+					if wf == nil || wf.Name() != "WithTruncate" {
+						return false
+					}
+					a := wc.Call.Args[len(wc.Call.Args)-1]
+					k, isC := a.(*ssa.Const)
+					return isC && k.Value != nil && k.Value.Kind() == constant.Bool && constant.BoolVal(k.Value)
+				})
+				r.Check(okT, rule, fn.Name()+":badger.Open:truncate", p.ipos(c), fnName(fn), "options carry WithTruncate(true)",
+					"badger.Open is given options without WithTruncate(true): after a kill in the middle of a value-log write the database refuses to open (\"Value log truncate required\") and the node cannot bootstrap")
+			}
+		}
+	}
+	if n == 0 {
+		r.Fail(rule, "badger.Open", "-", "", "no badger.Open call found in the store")
+	}
 }
